@@ -9,6 +9,7 @@ package query
 
 import (
 	"fmt"
+	"regexp"
 	"strings"
 	"testing"
 
@@ -500,6 +501,15 @@ func TestC02Query(t *testing.T) {
 							cursor.q.Rewind() // queryLocal.Get rewinds at eof
 							break
 						}
+						if !statelessStrategy(cursor.strat) {
+							// operators that keep rows between Gets (the outer row
+							// of times / 1:n joins, the look-ahead of summarize-seq,
+							// project-seq and union-merge, summarize-map's table)
+							// legitimately return data read under the cursor's
+							// previous transaction; only full reads are judged
+							rec.Label("cursor_continuation_not_judged:stateful_operator")
+							continue
+						}
 						k := canonRows(cols, [][]string{row})[0]
 						found := false
 						for _, w := range want {
@@ -601,4 +611,14 @@ func TestC02Query(t *testing.T) {
 			rec.Sample("history", map[string]any{"query": c.text, "history": hist})
 		}
 	})
+}
+
+// statelessStrategy: every Get of the strategy reads only through the
+// transaction set by the preceding SetTran (tables in cursor mode re-seek from
+// the current key, where/extend/rename/project-copy work row by row, 1:1 and
+// n:1 joins fetch the outer row and look the inner one up on each Get).
+var statefulRe = regexp.MustCompile(`summarize|project-seq|project-map|project-hash|union|intersect|minus|times|1:n|n:n|tempindex`)
+
+func statelessStrategy(strat string) bool {
+	return !statefulRe.MatchString(strat)
 }
